@@ -2,14 +2,13 @@ SPECIFICATION Spec
 CONSTANTS
   MODE = "matrix"
   SEED = 1
-  ROUND = 2
   T1 = 4
   T2 = 3
   T3 = 1
   NS2 = 200
   NS3 = 300
   NSBIG = 40
-  NCAP = 40
+  NCAP = 30
   MAXD = 1
   LEN = 1
   MUTANT = FALSE
